@@ -33,7 +33,8 @@ def renderEntry (e : Entry) : Bytes :=
 
 def renderMeminfo (es : List Entry) : Bytes := (es.map fun e => renderEntry e ++ [10]).flatten
 
-/-- names a kernel can print: non-empty, no blanks/newlines, no colon inside -/
+/-- names a kernel can print: non-empty, no blanks/newlines (a colon inside the name is allowed:
+    the reader splits on blanks, the key it stores is the whole first field) -/
 def Entry.WF (e : Entry) : Prop := e.name ≠ [] ∧ NoWs e.name
 
 /-- the abstract meminfo: name ↦ printed value (a later line wins, as for any reader) -/
@@ -143,7 +144,15 @@ def availRaw (m : MemInfo) (free : Nat) (wm : Option Nat) : Int :=
   | some 0 => fallbackEstimate m free wm
   | some a => a
 
-/-- forced into [0, total]: below 0 ↦ 0, above total ↦ free -/
+/-- forced into [0, total]: below 0 ↦ 0, above total ↦ free.
+    The second arm is what `free(1)` (procps sysinfo.c) documents for containers whose figures
+    are distorted, and it lands in [0, total] exactly when free ≤ total — the condition the
+    property's own range clause carries ("whenever free <= total"). For free > total the result
+    is free > total: `C08_avail_in_range` is therefore conditional and the unconditional reading
+    is refuted (`C08_avail_in_range_needs_free_le_total`); integrator's decision: the property
+    text stands, no finding. NB this arm is a decision taken from the documented behaviour of
+    `free`, not derived from the words "forced into": the statement does not say which value
+    inside the range is chosen. -/
 def clamp (a : Int) (total free : Nat) : Int :=
   if a < 0 then 0 else if a > total then free else a
 
@@ -210,9 +219,15 @@ def swapPercentExact (total : Nat) (used : Int) : Rat :=
   if total = 0 then 0 else (used : Rat) / total * 100
 
 /-- totals from SwapTotal/SwapFree (kB), from sysinfo(2) (`sysTotal`, `sysFree` in bytes) when
-    either is missing; swapped-in/out pages (4 KiB each) from /proc/vmstat (`none`: file
-    unreadable): both counters or — with a warning — neither. -/
-def swap (m : MemInfo) (sysTotal sysFree : Nat) (vmstat : Option (Bytes → Option Nat)) : Swap :=
+    either is missing; cumulative swapped-in/out BYTES: the kernel's `pswpin` / `pswpout` events
+    of /proc/vmstat count PAGES (mm/page_io.c: `count_vm_events(PSWPIN, folio_nr_pages(folio))`),
+    so bytes = pages × `page`, the kernel's PAGE_SIZE (4096 on x86; 16384 / 65536 on many arm64,
+    ppc64 and loongarch kernels). `vmstat = none`: file unreadable.
+    Pair rule (a NAMED DEVIATION from "0 for the affected metric"): the two counters are one
+    metric for the warning (its text names both): when only ONE of them is listed BOTH are
+    reported 0 with the warning, although the listed one could have been reported. -/
+def swap (m : MemInfo) (sysTotal sysFree : Nat) (page : Nat)
+    (vmstat : Option (Bytes → Option Nat)) : Swap :=
   let (total, free, via) : Nat × Nat × Bool :=
     match m.bytes "SwapTotal", m.bytes "SwapFree" with
     | some t, some f => (t, f, false)
@@ -223,7 +238,7 @@ def swap (m : MemInfo) (sysTotal sysFree : Nat) (vmstat : Option (Bytes → Opti
     | none => none
     | some g =>
       match g (K "pswpin"), g (K "pswpout") with
-      | some i, some o => some (i * 4096, o * 4096)
+      | some i, some o => some (i * page, o * page)
       | _, _ => none
   { total := total, used := used, free := free, percentExact := swapPercentExact total used,
     sin := (io.map (·.1)).getD 0, sout := (io.map (·.2)).getD 0, warned := io.isNone,
